@@ -576,6 +576,183 @@ theorem a3_lookat_orthonormal (h : SqrtLaw E) (eye point up : Vec3 α)
   rw [hA]
   exact ⟨hUu, o1, hZu, o2, o3, hUZ, o4, rfl⟩
 
+/-! ## quaternion from rotation matrix: all four branches return ±q -/
+
+/-- the square root of a square, from the law: positive root is unique -/
+theorem sqrt_eq_of_sq (h : SqrtLaw E) (x y : α) (hy : 0 < y) (hxy : y * y = x) : E.sqrt x = y := by
+  have hx : 0 < x := by rw [← hxy]; positivity
+  obtain ⟨hp, hm⟩ := h x hx
+  have : (E.sqrt x - y) * (E.sqrt x + y) = 0 := by ring_nf; rw [sq, hm, ← hxy]; ring
+  rcases mul_eq_zero.mp this with h1 | h1
+  · linarith
+  · linarith
+
+/-- pivot step shared by the four branches of the matrix→quaternion constructor: with t = 4a², s = rsqrt(t)·½,
+    t·s = |a| and (4·a·x)·s = ±x with the sign of a -/
+theorem pivot (h : SqrtLaw E) (a : α) (ha : a ≠ 0) :
+    (4 * a * a) * ((1 / E.sqrt (4 * a * a)) * (1 / 2)) = |a| ∧
+    ∀ x, (4 * a * x) * ((1 / E.sqrt (4 * a * a)) * (1 / 2)) = if 0 < a then x else -x := by
+  rcases lt_or_gt_of_ne ha with hneg | hpos
+  · have hs : E.sqrt (4 * a * a) = -(2 * a) := sqrt_eq_of_sq E h _ _ (by linarith) (by ring)
+    rw [hs, abs_of_neg hneg]
+    have : ¬ (0 < a) := not_lt.mpr (le_of_lt hneg)
+    simp only [this, ↓reduceIte]
+    constructor
+    · field_simp; ring
+    · intro x; field_simp; ring
+  · have hs : E.sqrt (4 * a * a) = 2 * a := sqrt_eq_of_sq E h _ _ (by linarith) (by ring)
+    rw [hs, abs_of_pos hpos]
+    simp only [hpos, ↓reduceIte]
+    constructor
+    · field_simp; ring
+    · intro x; field_simp; ring
+
+/-- the result of a branch whose pivot component is `a`: the quaternion (x,y,z,w) up to the sign of `a` -/
+def signed (a : α) (q : Quat α) : Quat α := if 0 < a then q else ⟨-q.i, -q.j, -q.k, -q.r⟩
+
+/-- branch 1 (trace ≥ 0): pivot r -/
+theorem from_matrix_b1 (h : SqrtLaw E) (vx vy vz : Vec3 α) (a x y z : α) (ha : a ≠ 0)
+    (hc : vx.x + vy.y + vz.z ≥ 0) (ht : 1 + (vx.x + vy.y + vz.z) = 4 * a * a)
+    (h1 : vy.z - vz.y = 4 * a * x) (h2 : vz.x - vx.z = 4 * a * y) (h3 : vx.y - vy.x = 4 * a * z) :
+    @q_from_matrix α 𝔽 vx vy vz = signed a ⟨x, y, z, a⟩ := by
+  have h0 : (OfScientific.ofScientific 0 true 1 : α) = 0 := by norm_num
+  have h10 : (OfScientific.ofScientific 10 true 1 : α) = 1 := by norm_num
+  have h05 : (OfScientific.ofScientific 5 true 1 : α) = 1 / 2 := by norm_num
+  obtain ⟨p1, p2⟩ := pivot E h a ha
+  simp only [gen_simp, ofFieldT_ofScientific, ofFieldT_ofNat, ofFieldT_sqrt, h0, h10, h05, Nat.cast_zero, Nat.cast_one]
+  simp only [Nat.cast_ofNat]
+  simp only [hc, decide_true, ↓reduceIte, ht, h1, h2, h3, p1, p2, signed]
+  split_ifs with hp
+  · rw [abs_of_pos hp]
+  · have : a < 0 := lt_of_le_of_ne (not_lt.mp hp) ha
+    rw [abs_of_neg this]
+
+/-- branch 2: pivot i -/
+theorem from_matrix_b2 (h : SqrtLaw E) (vx vy vz : Vec3 α) (a x y z : α) (ha : a ≠ 0)
+    (hc1 : ¬ (vx.x + vy.y + vz.z ≥ 0)) (hc2 : vx.x ≥ max vy.y vz.z)
+    (ht : 1 + vx.x - (vy.y + vz.z) = 4 * a * a)
+    (h1 : vy.z - vz.y = 4 * a * x) (h2 : vx.y + vy.x = 4 * a * y) (h3 : vz.x + vx.z = 4 * a * z) :
+    @q_from_matrix α 𝔽 vx vy vz = signed a ⟨a, y, z, x⟩ := by
+  have h0 : (OfScientific.ofScientific 0 true 1 : α) = 0 := by norm_num
+  have h10 : (OfScientific.ofScientific 10 true 1 : α) = 1 := by norm_num
+  have h05 : (OfScientific.ofScientific 5 true 1 : α) = 1 / 2 := by norm_num
+  obtain ⟨p1, p2⟩ := pivot E h a ha
+  simp only [gen_simp, ofFieldT_ofScientific, ofFieldT_ofNat, ofFieldT_sqrt, h0, h10, h05, Nat.cast_zero, Nat.cast_one]
+  simp only [Nat.cast_ofNat]
+  simp only [hc1, hc2, decide_true, decide_false, ↓reduceIte, Bool.false_eq_true, ht, h1, h2, h3, p1, p2, signed]
+  split_ifs with hp
+  · rw [abs_of_pos hp]
+  · have : a < 0 := lt_of_le_of_ne (not_lt.mp hp) ha
+    rw [abs_of_neg this]
+
+/-- branch 3: pivot j -/
+theorem from_matrix_b3 (h : SqrtLaw E) (vx vy vz : Vec3 α) (a x y z : α) (ha : a ≠ 0)
+    (hc1 : ¬ (vx.x + vy.y + vz.z ≥ 0)) (hc2 : ¬ (vx.x ≥ max vy.y vz.z)) (hc3 : vy.y ≥ vz.z)
+    (ht : 1 + vy.y - (vz.z + vx.x) = 4 * a * a)
+    (h1 : vz.x - vx.z = 4 * a * x) (h2 : vx.y + vy.x = 4 * a * y) (h3 : vy.z + vz.y = 4 * a * z) :
+    @q_from_matrix α 𝔽 vx vy vz = signed a ⟨y, a, z, x⟩ := by
+  have h0 : (OfScientific.ofScientific 0 true 1 : α) = 0 := by norm_num
+  have h10 : (OfScientific.ofScientific 10 true 1 : α) = 1 := by norm_num
+  have h05 : (OfScientific.ofScientific 5 true 1 : α) = 1 / 2 := by norm_num
+  obtain ⟨p1, p2⟩ := pivot E h a ha
+  simp only [gen_simp, ofFieldT_ofScientific, ofFieldT_ofNat, ofFieldT_sqrt, h0, h10, h05, Nat.cast_zero, Nat.cast_one]
+  simp only [Nat.cast_ofNat]
+  simp only [hc1, hc2, hc3, decide_true, decide_false, ↓reduceIte, Bool.false_eq_true, ht, h1, h2, h3, p1, p2, signed]
+  split_ifs with hp
+  · rw [abs_of_pos hp]
+  · have : a < 0 := lt_of_le_of_ne (not_lt.mp hp) ha
+    rw [abs_of_neg this]
+
+/-- branch 4: pivot k -/
+theorem from_matrix_b4 (h : SqrtLaw E) (vx vy vz : Vec3 α) (a x y z : α) (ha : a ≠ 0)
+    (hc1 : ¬ (vx.x + vy.y + vz.z ≥ 0)) (hc2 : ¬ (vx.x ≥ max vy.y vz.z)) (hc3 : ¬ (vy.y ≥ vz.z))
+    (ht : 1 + vz.z - (vx.x + vy.y) = 4 * a * a)
+    (h1 : vx.y - vy.x = 4 * a * x) (h2 : vz.x + vx.z = 4 * a * y) (h3 : vy.z + vz.y = 4 * a * z) :
+    @q_from_matrix α 𝔽 vx vy vz = signed a ⟨y, z, a, x⟩ := by
+  have h0 : (OfScientific.ofScientific 0 true 1 : α) = 0 := by norm_num
+  have h10 : (OfScientific.ofScientific 10 true 1 : α) = 1 := by norm_num
+  have h05 : (OfScientific.ofScientific 5 true 1 : α) = 1 / 2 := by norm_num
+  obtain ⟨p1, p2⟩ := pivot E h a ha
+  simp only [gen_simp, ofFieldT_ofScientific, ofFieldT_ofNat, ofFieldT_sqrt, h0, h10, h05, Nat.cast_zero, Nat.cast_one]
+  simp only [Nat.cast_ofNat]
+  simp only [hc1, hc2, hc3, decide_true, decide_false, ↓reduceIte, Bool.false_eq_true, ht, h1, h2, h3, p1, p2, signed]
+  split_ifs with hp
+  · rw [abs_of_pos hp]
+  · have : a < 0 := lt_of_le_of_ne (not_lt.mp hp) ha
+    rw [abs_of_neg this]
+
+theorem signed_cases (a : α) (q : Quat α) : signed a q = q ∨ signed a q = @q_neg α 𝔽 q := by
+  unfold signed
+  split_ifs
+  · exact Or.inl rfl
+  · right; simp only [gen_simp]
+
+/-- **quaternion ← matrix ← quaternion**: for every unit quaternion q, converting its rotation matrix back yields q or −q
+    (the same rotation), whichever of the four branches is taken; in particular the pivot of the branch taken is
+    never zero, so no branch divides by zero. -/
+theorem q_from_matrix_of_quat (h : SqrtLaw E) (q : Quat α)
+    (hu : q.r * q.r + q.i * q.i + q.j * q.j + q.k * q.k = 1) :
+    let M := @l3_from_quat α 𝔽 q
+    @q_from_matrix α 𝔽 M.vx M.vy M.vz = q ∨ @q_from_matrix α 𝔽 M.vx M.vy M.vz = @q_neg α 𝔽 q := by
+  intro M
+  have h20 : (OfScientific.ofScientific 20 true 1 : α) = 2 := by norm_num
+  obtain ⟨i, j, k, r⟩ := q
+  simp only at hu
+  have ex : M.vx.x = r * r + i * i - j * j - k * k := by simp only [M, gen_simp]
+  have ey : M.vy.y = r * r - i * i + j * j - k * k := by simp only [M, gen_simp]
+  have ez : M.vz.z = r * r - i * i - j * j + k * k := by simp only [M, gen_simp]
+  have exy : M.vx.y = 2 * (i * j + r * k) := by simp only [M, gen_simp, ofFieldT_ofScientific, h20]
+  have exz : M.vx.z = 2 * (i * k - r * j) := by simp only [M, gen_simp, ofFieldT_ofScientific, h20]
+  have eyx : M.vy.x = 2 * (i * j - r * k) := by simp only [M, gen_simp, ofFieldT_ofScientific, h20]
+  have eyz : M.vy.z = 2 * (j * k + r * i) := by simp only [M, gen_simp, ofFieldT_ofScientific, h20]
+  have ezx : M.vz.x = 2 * (i * k + r * j) := by simp only [M, gen_simp, ofFieldT_ofScientific, h20]
+  have ezy : M.vz.y = 2 * (j * k - r * i) := by simp only [M, gen_simp, ofFieldT_ofScientific, h20]
+  have tr : M.vx.x + M.vy.y + M.vz.z = 4 * (r * r) - 1 := by rw [ex, ey, ez]; linear_combination (-1 : α) * hu
+  have dxy : M.vx.x - M.vy.y = 2 * (i * i) - 2 * (j * j) := by rw [ex, ey]; ring
+  have dxz : M.vx.x - M.vz.z = 2 * (i * i) - 2 * (k * k) := by rw [ex, ez]; ring
+  have dyz : M.vy.y - M.vz.z = 2 * (j * j) - 2 * (k * k) := by rw [ey, ez]; ring
+  have nr := mul_self_nonneg r
+  have ni := mul_self_nonneg i
+  have nj := mul_self_nonneg j
+  have nk := mul_self_nonneg k
+  by_cases c1 : M.vx.x + M.vy.y + M.vz.z ≥ 0
+  · have hr : r ≠ 0 := by
+      intro e
+      have : r * r = 0 := by rw [e]; ring
+      rw [tr, this] at c1; linarith
+    rw [from_matrix_b1 E h M.vx M.vy M.vz r i j k hr c1 (by rw [ex, ey, ez]; linear_combination (-1 : α) * hu)
+      (by rw [eyz, ezy]; ring) (by rw [ezx, exz]; ring) (by rw [exy, eyx]; ring)]
+    exact signed_cases E r _
+  · have c1' : 4 * (r * r) - 1 < 0 := by rw [tr] at c1; exact not_le.mp c1
+    by_cases c2 : M.vx.x ≥ max M.vy.y M.vz.z
+    · have hi : i ≠ 0 := by
+        intro e
+        have e2 : i * i = 0 := by rw [e]; ring
+        have c2a : M.vy.y ≤ M.vx.x := le_trans (le_max_left _ _) c2
+        have c2b : M.vz.z ≤ M.vx.x := le_trans (le_max_right _ _) c2
+        linarith
+      rw [from_matrix_b2 E h M.vx M.vy M.vz i r j k hi c1 c2 (by rw [ex, ey, ez]; linear_combination (-1 : α) * hu)
+        (by rw [eyz, ezy]; ring) (by rw [exy, eyx]; ring) (by rw [ezx, exz]; ring)]
+      exact signed_cases E i _
+    · by_cases c3 : M.vy.y ≥ M.vz.z
+      · have hj : j ≠ 0 := by
+          intro e
+          have e2 : j * j = 0 := by rw [e]; ring
+          have : M.vx.x < M.vy.y := by
+            have := not_le.mp c2; rwa [max_eq_left c3] at this
+          linarith
+        rw [from_matrix_b3 E h M.vx M.vy M.vz j r i k hj c1 c2 c3 (by rw [ex, ey, ez]; linear_combination (-1 : α) * hu)
+          (by rw [ezx, exz]; ring) (by rw [exy, eyx]; ring) (by rw [eyz, ezy]; ring)]
+        exact signed_cases E j _
+      · have hk : k ≠ 0 := by
+          intro e
+          have e2 : k * k = 0 := by rw [e]; ring
+          have := not_le.mp c3
+          linarith
+        rw [from_matrix_b4 E h M.vx M.vy M.vz k r i j hk c1 c2 c3 (by rw [ex, ey, ez]; linear_combination (-1 : α) * hu)
+          (by rw [exy, eyx]; ring) (by rw [ezx, exz]; ring) (by rw [eyz, ezy]; ring)]
+        exact signed_cases E k _
+
 /-! ## non-vacuity -/
 example : (2 : ℚ) * 2 + 0 * 0 + 0 * 0 ≠ 0 := by norm_num
 /-- the square-root law is satisfiable (real numbers) -/
